@@ -25,20 +25,30 @@ func verifClose1009(ep *verifEndpoint, from int) bool {
 
 // one data frame (or continuation) with a symbolic declared length against a
 // symbolic limit; ml bytes of the message are already assembled.
-func verifC15Declared(ml int, form int) {
+func verifC15Declared(ml int, form int) { verifC15DeclaredC(ml, form, false) }
+
+// compressed: the message in progress is a compressed one (RSV1 on its first
+// frame); its continuation frames count against the limit like any others
+func verifC15DeclaredC(ml int, form int, compressed bool) {
 	limit := verifInt("limit", 1, 12)
-	ep := verifNewEndpoint(false, false, 0, nil)
+	ep := verifNewEndpoint(false, compressed, 0, nil)
 	ep.u.MessageLengthLimit = limit // commonFields is shared by pointer with the Conn
 	c := ep.c
 	op := byte(BinaryMessage)
 	if ml > 0 {
 		first := append([]byte{byte(BinaryMessage), byte(ml)}, make([]byte, ml)...)
+		if compressed {
+			first[0] |= 0x40
+		}
 		verifAssume(ml <= limit)
 		err := c.Parse(first)
 		verifAssert(err == nil && c.message != nil && len(*c.message) == ml, "setup-first-fragment")
 		op = 0
 	}
 	fin := verifBool("fin")
+	if compressed {
+		fin = false // the garbage payload is never inflated: the message stays in progress
+	}
 	b0 := op
 	if fin {
 		b0 |= 0x80
@@ -104,6 +114,18 @@ func verifHarness_C15_declared_fresh_64bit() { verifC15Declared(0, 2); verifAsse
 func verifHarness_C15_declared_cont_7bit()   { verifC15Declared(2, 0); verifAssert(false, "witness") }
 func verifHarness_C15_declared_cont_16bit()  { verifC15Declared(2, 1); verifAssert(false, "witness") }
 func verifHarness_C15_declared_cont_64bit()  { verifC15Declared(2, 2); verifAssert(false, "witness") }
+func verifHarness_C15_declared_cont_compressed_7bit() {
+	verifC15DeclaredC(2, 0, true)
+	verifAssert(false, "witness")
+}
+func verifHarness_C15_declared_cont_compressed_16bit() {
+	verifC15DeclaredC(2, 1, true)
+	verifAssert(false, "witness")
+}
+func verifHarness_C15_declared_cont_compressed_64bit() {
+	verifC15DeclaredC(2, 2, true)
+	verifAssert(false, "witness")
+}
 
 // verifAnyReader over-approximates every inflater: each Read returns a
 // solver-chosen count and one of nil / io.EOF / another error.
